@@ -13,8 +13,14 @@ Models (assumed facts about the Python runtime, stated here once):
     one fact used: a key present => cnt >= 1 (so an empty inner dict has no key).
   * list values of `_deps`: (len, element, membership) with: every element is a member, every member is an element.
   * `weakref.ref(canvas, callback)` is an injective constructor `ref_of(canvas)` and `ref()` gives the canvas back:
-    the WeakKeyDictionary / weak reference LIFETIME (garbage collection, the cleanup callback firing) is OUT OF SCOPE —
-    weak references are modelled as plain (always live) references. `cleanup` is verified as an ordinary function.
+    WHEN a canvas is collected is out of scope — weak references are modelled as plain (always live) references and
+    `cleanup` is verified as an ordinary function. What IS covered of garbage collection: the callback can fire only for
+    a weak reference object that is still alive, i.e. (the cache holds the only references to them) one that is still a
+    key of `_refs` or a value of `_widgets` — `cleanup`'s precondition; and the class invariant full_inv (`_widgets` and
+    `_refs` are inverse to each other: rep_inv + no_stale_ref), kept by store (at the wrappers' call site) / invalidate /
+    cleanup / cached_render and established by clear, makes every such firing remove exactly the entry that held the
+    collected canvas (clause removes-only-an-entry-holding-the-dead-ref) and the dependants list only with the widget's
+    last entry. The end-to-end statement "garbage collection is invisible" is exercised by bounded/C06.py (gc-histories).
   * widgets, canvases, classes and sizes are opaque individuals (sorts CWidget, CCanvas, CClass, CSize): the cache
     never looks inside them apart from canvas.cacheable / widget_info / depends_on / children.
 """
@@ -118,7 +124,34 @@ class WMap(ModelObj):
                 self.has2 = lambda w, c, z, f: z3.And(o2(w, c, z, f), w != ke)
                 self.cnt = lambda w: z3.If(w == ke, 0, oc(w))
             return Inner(self, k.e)
+        if name == "pop":
+            # dict.pop(k[, default]): removes the widget's inner dict; the popped dict is detached (no longer a view)
+            k = args[0]
+            if st.branch(self.hasw(k.e)):
+                oh, ke = self.hasw, k.e
+                self.hasw = lambda w: z3.And(oh(w), w != ke)
+                return _Detached("the dict popped from _widgets")
+            if len(args) > 1:
+                return args[1]
+            raise PyRaise(SExc(KeyError, ("widget",), site="_widgets.pop"))
         raise Unsupported(f"_widgets.{name}")
+
+
+class _Detached(ModelObj):
+    """A value the model does not follow any further (e.g. the inner dict returned by `_widgets.pop`): any use of it
+    is an honest Unsupported."""
+
+    def __init__(self, what):
+        self.what = what
+
+    def snapshot(self):
+        return self
+
+    def py_truth(self, st):
+        raise Unsupported(f"truth of {self.what}")
+
+    def py_call(self, ip, st, name, args, kwargs):
+        raise Unsupported(f"{self.what} .{name}")
 
 
 class Inner(ModelObj):
@@ -141,6 +174,16 @@ class Inner(ModelObj):
             return args[1] if len(args) > 1 else None
         if name == "values":
             return InnerValues(st, self.m, self.w)
+        if name == "pop":
+            # dict.pop(key[, default]) = get + del
+            kt = key_terms(args[0])
+            if st.branch(self.m.has2(self.w, *kt)):
+                r = SOpaque("CRef", self.m.val2(self.w, *kt))
+                self.py_delitem(ip, st, args[0])
+                return r
+            if len(args) > 1:
+                return args[1]
+            raise PyRaise(SExc(KeyError, ("cache key",), site="inner dict .pop"))
         raise Unsupported(f"inner dict .{name}")
 
     def py_setitem(self, ip, st, key, v):
@@ -221,6 +264,17 @@ class RMap(ModelObj):
             if st.branch(self.has(k.e)):
                 return self._tuple(k.e)
             return args[1] if len(args) > 1 else None
+        if name == "pop":
+            # dict.pop(ref[, default]) = get + del
+            k = args[0]
+            if st.branch(self.has(k.e)):
+                t = self._tuple(k.e)
+                oh, ke = self.has, k.e
+                self.has = lambda r: z3.And(oh(r), r != ke)
+                return t
+            if len(args) > 1:
+                return args[1]
+            raise PyRaise(SExc(KeyError, ("ref",), site="_refs.pop"))
         raise Unsupported(f"_refs.{name}")
 
 
@@ -293,6 +347,16 @@ class DMap(ModelObj):
                 self.dmem = lambda x, y: z3.And(om(x, y), x != ke)
                 self.size = self.size + 1
             return DList(self, k.e)
+        if name == "pop":
+            # dict.pop(widget[, default]) = get + del (the list value is the immutable (len, element) view at the pop)
+            k = args[0]
+            if st.branch(self.has(k.e)):
+                lst = self.listval(k.e)
+                self.py_delitem(ip, st, k)
+                return lst
+            if len(args) > 1:
+                return args[1]
+            raise PyRaise(SExc(KeyError, ("widget",), site="_deps.pop"))
         raise Unsupported(f"_deps.{name}")
 
 
@@ -378,6 +442,24 @@ def rep_inv(s):
     r = wm.val2(w, c, z, f)
     rw, rc, rz, rf = rm.val(r)
     return mk_bool(z3.ForAll([w, c, z, f], z3.Implies(wm.cached(w, c, z, f), z3.And(rm.has(r), rw == w, rc == c, rz == z, rf == f))))
+
+
+def no_stale_ref(s):
+    """The CONVERSE half of the representation invariant: every key of `_refs` names an entry that is still cached under
+    that (widget, wcls, size, focus) key and holds that very reference. `cleanup(ref)` deletes whatever entry `_refs[ref]`
+    names (and the widget's dependants list with its last entry), so a stale key of `_refs` — one whose entry was
+    invalidated or overwritten — makes the garbage collection of the OLD canvas remove the NEW entry stored under the
+    same key together with `_deps[widget]`: the dependency cascade is lost and an ancestor keeps a stale canvas
+    (statement: garbage collection of unreferenced canvases is invisible)."""
+    r = z3.Const("qns_r", R)
+    wm, rm = s._widgets, s._refs
+    k = rm.val(r)
+    return mk_bool(z3.ForAll([r], z3.Implies(rm.has(r), z3.And(wm.cached(*k), wm.val2(*k) == r))))
+
+
+def full_inv(s):
+    """`_widgets` and `_refs` are inverse to each other: rep_inv (entries -> refs) and no_stale_ref (refs -> entries)."""
+    return both(rep_inv(s), no_stale_ref(s))
 
 
 def _real(ip, st, f, args, kwargs):
@@ -516,7 +598,7 @@ class cleanup:
     params = dict(ref=REF)
     modifies = ("_widgets", "_refs", "_deps", "cleanups")
     raises = ()
-    invariant = staticmethod(rep_inv)
+    invariant = staticmethod(full_inv)
 
     def requires(s, a):
         # call site: the callback of a weak reference object that is still alive, i.e. still a key of _refs
@@ -530,6 +612,10 @@ class cleanup:
         yield "ref-forgotten", mk_bool(z3.ForAll([r], s._refs.has(r) == z3.And(old._refs.has(r), r != r0)))
         yield "other-refs-kept", mk_bool(z3.ForAll([r], z3.Implies(r != r0, z3.And(*[p == q for p, q in zip(s._refs.val(r), old._refs.val(r))]))))
         yield "removes-exactly-the-named-entry", entries_same_except(wm2, wm, e0)
+        # garbage collection is invisible: the only entry that goes is one that held the collected canvas's reference
+        # (a fetch on it would have missed anyway) — never an entry holding another, possibly live, canvas
+        w_, c_, z_, f_ = _qvars("cg")
+        yield "removes-only-an-entry-holding-the-dead-ref", mk_bool(z3.ForAll([w_, c_, z_, f_], z3.Implies(z3.And(wm.cached(w_, c_, z_, f_), z3.Not(wm2.cached(w_, c_, z_, f_))), wm.val2(w_, c_, z_, f_) == r0)))
         x, k = z3.Const("qc_x", W), _qvars("ck")
         yield "dependants-lists-untouched", dm2.dmem is dm.dmem and dm2.delt is dm.delt and dm2.dlen is dm.dlen
         yield "dependants-of-other-widgets-kept", mk_bool(z3.ForAll([x], z3.And(z3.Implies(dm2.has(x), dm.has(x)), z3.Implies(x != e0[0], dm2.has(x) == dm.has(x)))))
@@ -649,6 +735,9 @@ class store:
         w_, c_, z_, f_ = _qvars("fr")
         fresh = mk_bool(z3.ForAll([w_, c_, z_, f_], z3.Implies(wm.cached(w_, c_, z_, f_), wm.val2(w_, c_, z_, f_) != r)))
         yield "representation-invariant-kept", implies(both(rep_inv(old), fresh), rep_inv(s))
+        # call-site fact (the render wrappers): fetch has just missed, there is no entry under this key. (store does not
+        # remove the reference of an entry it overwrites from _refs: overwriting a live entry would leave a stale ref.)
+        yield "no-stale-ref-kept", implies(both(no_stale_ref(old), neg(mk_bool(wm.cached(*key)))), no_stale_ref(s))
         yield "cached-canvases-stay-finalized", implies(all_cached_finalized(st, wm), all_cached_finalized(st, wm2))
 
 
@@ -718,6 +807,7 @@ def _inval_loop0(v):
     w0 = v.widget.e
     yield "refs-only-shrink", _refs_shrink(rm, rm0)
     yield "refs-of-other-widgets-kept", mk_bool(z3.ForAll([r], z3.Implies(z3.And(rm0.has(r), rm0.val(r)[0] != w0), rm.has(r))))
+    yield "refs-of-the-entries-visited-so-far-forgotten", forall(0, v.i_, lambda j: mk_bool(z3.Not(rm.has(v.iter_.get(j).e))))
     yield "entries-and-deps-not-yet-written", same_model(v.cls._widgets, v.old.self._widgets) and same_model(v.cls._deps, v.old.self._deps)
 
 
@@ -734,6 +824,7 @@ def _inval_loop1(v):
     yield "deps-shrank", mk_bool(dm.size <= dm0.size - 1)
     yield "refs-only-shrink", _refs_shrink(rm, rm0)
     yield "representation-invariant", rep_inv(v.cls)
+    yield "no-stale-ref", no_stale_ref(v.cls)
     yield "iterating-the-entry-list", both(v.iter_.length == mk_int(dm0.dlen(w0)), forall(0, v.iter_.length, lambda j: mk_bool(v.iter_.get(j).e == dm0.delt(w0, V._z(j)))))
 
 
@@ -758,7 +849,7 @@ class invalidate:
     cover_witness = staticmethod(empty_entries_witness)
 
     def requires(s, a):
-        return rep_inv(s)
+        return full_inv(s)
 
     def decreases(s, a):
         return mk_int(s._deps.size)
@@ -773,6 +864,9 @@ class invalidate:
         yield "deps-do-not-grow", mk_bool(dm2.size <= dm.size)
         yield "refs-only-shrink", _refs_shrink(rm2, rm)
         yield "representation-invariant-kept", rep_inv(s)
+        # no reference of an invalidated entry survives in _refs: otherwise its cleanup callback would later delete the
+        # entry re-stored under the same key and the widget's dependants list (see no_stale_ref)
+        yield "no-stale-ref-left", no_stale_ref(s)
 
 
 @lemma("invalidate-reaches-the-transitive-closure", property="C06")
@@ -952,6 +1046,9 @@ class cached_render:
         w2, z2, f2 = wi.val
         yield "widget-info-is-this-call", both(mk_bool(w2.e == a.self.e), mk_bool(z2.e == a.size.e), eq(f2, eff_focus))
         yield "an-entry-for-this-key-holds-this-canvas", implies(mk_bool(cache._widgets.cached(*key)), mk_bool(cache._widgets.val2(*key) == ref_of(result.e)))
+        # the two call-site facts store's invariant clauses rely on hold here: fetch has just missed (no entry under the
+        # key: render-only-on-a-miss) and the canvas was not finalized before this call (no cached entry holds its reference)
+        yield "cache-maps-stay-inverse", implies(full_inv(cache0), full_inv(cache))
 
 
 @contract(WW + "nocache_widget_render.<finalize_render>", property="C06", replayable=False)
